@@ -437,9 +437,12 @@ def usecaps_oracle(p, idx, add, allow_doubles, allow_neg_doubles, tol=1e-10):
 
 
 def usecaps_body(case):
-    from pydl.pydlutils.mangle import set_use_caps
+    from pydl.pydlutils.mangle import set_use_caps, is_in_polygon
     p = case['poly']
     poly = make_polygon(p)
+    # membership is asked before and after the mask is changed on the same object: the answer follows the mask the polygon has now
+    probe = np.array([p['x'][i] for i in range(min(len(p['x']), 6))] + [[-v for v in p['x'][0]], [0.0, 0.0, 1.0], [0.6, 0.0, 0.8]], dtype='f8')
+    call(is_in_polygon, poly, probe)
     idx = np.array(case['index_list'], dtype='i4' if case['as_array'] is True else case['as_array']) if case['as_array'] else list(case['index_list'])
     got = call(set_use_caps, poly, idx, add=case['add'], allow_doubles=case['allow_doubles'], allow_neg_doubles=case['allow_neg_doubles'])
     want = usecaps_oracle(p, case['index_list'], case['add'], case['allow_doubles'], case['allow_neg_doubles'])
@@ -449,6 +452,10 @@ def usecaps_body(case):
     with judge('set_use_caps'):
         check(int(got) == want, 'set_use_caps:wrong-mask', lambda: dict(got=int(got), want=want, case=case))
         check(int(poly.use_caps) == want, 'set_use_caps:attribute-differs', lambda: dict(attr=int(poly.use_caps), want=want))
+    after = call(is_in_polygon, poly, probe)
+    with judge('membership-after-set_use_caps'):
+        v = poly_verdict(dict(p, use_caps=want), probe)
+        compare_bool(after, v, 'set_use_caps:membership-ignores-the-new-mask', lambda k: dict(point=probe[k].tolist(), use_caps=want))
 
 
 def usecaps_classify(case):
